@@ -151,7 +151,10 @@ def classify(d, groups, regnames=()):
     if d.get("registry_differs_before_run") and d["kind"] in ("repeat", "after", "afterclean", "batch") \
             and d.get("common_type_names_interned_in_same_order") \
             and (d.get("type_names_only_before_a") or d.get("type_names_only_before_b") or not re.search(r"symnum|\(< \(quote|gensym", prog)) \
-            and REGISTRY_SENSITIVE.search(prog):
+            and (REGISTRY_SENSITIVE.search(prog) or (
+                # the symbol counter starts higher: only the numbers inside generated names differ
+                (d.get("type_names_only_before_a") or d.get("type_names_only_before_b"))
+                and re.sub(r"__(anon|gensym|loop)\d+", r"__\1N", a) == re.sub(r"__(anon|gensym|loop)\d+", r"__\1N", b))):
         return "registry-process-global"
     return None
 
